@@ -63,6 +63,9 @@ type Finding struct {
 	NShards    int    `json:"nshards,omitempty"`
 	Tier       string `json:"tier,omitempty"`
 	NeedPrefix bool   `json:"needs_prefix,omitempty"`
+	// Crash: the process that was running this case died (a panic in a goroutine started by the
+	// library cannot be recovered); the replay runs the case in a child process.
+	Crash bool `json:"crash,omitempty"`
 }
 
 // StopSignal is panicked by Ctx.Tick when the requested prefix has been executed.
@@ -169,6 +172,8 @@ type Ctx struct {
 	// once that many cases ran.
 	ExecCount int64
 	StopAfter int64
+	trace     *os.File
+	traceBuf  []byte
 }
 
 // Tick is called after every executed case.
@@ -207,8 +212,111 @@ func (c *Ctx) Mine() bool {
 func (c *Ctx) Expired() bool { return !c.Deadline.IsZero() && time.Now().After(c.Deadline) }
 
 // Begin/End bracket one case for the hang watchdog.
-func (c *Ctx) Begin(cs *Case) { c.cur.Store(cs); c.curStart.Store(time.Now().UnixNano()) }
-func (c *Ctx) End()           { c.curStart.Store(0) }
+func (c *Ctx) Begin(cs *Case) {
+	c.cur.Store(cs)
+	c.curStart.Store(time.Now().UnixNano())
+	if c.trace != nil {
+		c.traceBuf = EncodeCase(c.traceBuf[:0], cs)
+		c.trace.WriteAt(c.traceBuf, 0)
+	}
+}
+
+// TraceTo makes Begin record the case that is about to run in a side file, so that the parent can
+// name the call during which the process died (panics in goroutines started by the library end the
+// process; nothing in-process can catch them).
+func (c *Ctx) TraceTo(path string) error {
+	f, err := os.Create(path)
+	if err != nil {
+		return err
+	}
+	c.trace = f
+	return nil
+}
+
+// EncodeCase appends a length-prefixed flat encoding of the case (cheap: it runs before every case).
+func EncodeCase(b []byte, cs *Case) []byte {
+	b = append(b, "0000000000\n"...)
+	b = append(b, cs.Fam...)
+	b = append(b, '\n')
+	for i, v := range cs.P {
+		if i > 0 {
+			b = append(b, ',')
+		}
+		b = strconv.AppendInt(b, int64(v), 10)
+	}
+	b = append(b, '\n')
+	b = strconv.AppendInt(b, int64(len(cs.Ops)), 10)
+	b = append(b, '\n')
+	for _, o := range cs.Ops {
+		b = strconv.AppendInt(b, int64(len(o)), 10)
+		b = append(b, '\n')
+		b = append(b, o...)
+	}
+	if cs.S == nil {
+		b = append(b, 'n')
+	} else {
+		b = append(b, 's')
+		b = append(b, cs.S...)
+	}
+	n := strconv.Itoa(len(b) - 11)
+	copy(b[10-len(n):10], n)
+	return b
+}
+
+// DecodeCase reads what EncodeCase wrote (the file may have a stale tail behind the recorded length).
+func DecodeCase(b []byte) (*Case, error) {
+	if len(b) < 11 {
+		return nil, fmt.Errorf("short trace")
+	}
+	n, err := strconv.Atoi(strings.TrimLeft(string(b[:10]), "0"))
+	if err != nil && string(b[:10]) != "0000000000" {
+		return nil, err
+	}
+	b = b[11:]
+	if n > len(b) {
+		return nil, fmt.Errorf("truncated trace")
+	}
+	b = b[:n]
+	line := func() string {
+		i := 0
+		for i < len(b) && b[i] != '\n' {
+			i++
+		}
+		l := string(b[:i])
+		if i < len(b) {
+			i++
+		}
+		b = b[i:]
+		return l
+	}
+	cs := &Case{Fam: line()}
+	if ps := line(); ps != "" {
+		for _, x := range strings.Split(ps, ",") {
+			v, err := strconv.Atoi(x)
+			if err != nil {
+				return nil, err
+			}
+			cs.P = append(cs.P, v)
+		}
+	}
+	nops, err := strconv.Atoi(line())
+	if err != nil {
+		return nil, err
+	}
+	for i := 0; i < nops; i++ {
+		l, err := strconv.Atoi(line())
+		if err != nil || l > len(b) {
+			return nil, fmt.Errorf("bad op length")
+		}
+		cs.Ops = append(cs.Ops, string(b[:l]))
+		b = b[l:]
+	}
+	if len(b) > 0 && b[0] == 's' {
+		cs.S = append([]byte{}, b[1:]...)
+	}
+	return cs, nil
+}
+func (c *Ctx) End() { c.curStart.Store(0) }
 
 // Watch starts the hang watchdog: a case that runs longer than limit makes
 // the shard write its report with Hang set and exit with status 3.
